@@ -1548,6 +1548,14 @@ func (e *CEnv) evalCall(n *ast.CallExpr) (Value, types.Type) {
 				e.fail("fresh of %T", v)
 			}
 			return Scalar{BVUge(r, e.old.HeapTop)}, boolT
+		case "isUTC":
+			// isUTC(t): the time value carries the UTC location
+			v, _ := e.eval(n.Args[0])
+			sc, ok := v.(Scalar)
+			if !ok || sc.T.Sort != STime {
+				e.fail("isUTC needs a time.Time")
+			}
+			return Scalar{tmUTC(sc.T)}, boolT
 		case "httplimit":
 			// httplimit(r): the byte limit of a reader made by http.MaxBytesReader (an uninterpreted
 			// function of the reader; only MaxBytesReader's assumed contract says anything about it)
